@@ -219,12 +219,15 @@ class ThreadedHistory(History):
                 with self._lock:
                     self._loaded_strings.append(item)
 
-                for event in self._string_load_events:
+                # (Iterate over a copy: a `load()` that finishes removes its
+                # event from this list in another thread, which would make
+                # this loop skip the event that follows it.)
+                for event in list(self._string_load_events):
                     event.set()
         finally:
             with self._lock:
                 self._loaded = True
-            for event in self._string_load_events:
+            for event in list(self._string_load_events):
                 event.set()
 
     def append_string(self, string: str) -> None:
